@@ -14,6 +14,7 @@
 From Coq Require Import List NArith Bool.
 From Conductor Require Import Lib.Str Lib.Cmp Lib.Path Gen.Generated Model.Cwd
   Proofs.PathProofs Proofs.CwdProofs Refuted.CwdOld.
+From Conductor Require Model.ArchiveOut Proofs.ArchiveOutCwd.
 Import ListNotations.
 Local Open Scope N_scope.
 
@@ -103,6 +104,23 @@ Theorem C17_gc_old_refuted :
     gc_render_old cwd p = None.
 Proof. exact C17_gc_refuted. Qed.
 Print Assumptions C17_gc_old_refuted.
+
+(* Tie to the sources for WHERE `cond archive -o <path>` writes: the model of this property (Cwd.handle_output_path: a
+   path typed by the user, located from the working directory; the answer as a user path or one of the two errors) takes,
+   for every file system (ex, isdir), working directory, root, generated name and argument, the decision of
+   Model/ArchiveOut.v on what the file system says about that argument -- and that decision is the one TRANSLATED from
+   cli/archive.py of the working tree on every run (gen_archive_output_decision). *)
+Theorem C17_archive_output_location_is_the_sources : forall ex isdir cwd root name raw,
+  Proofs.ArchiveOutCwd.choice_matches (handle_output_path ex isdir cwd root name raw)
+     (Model.ArchiveOut.handle_output_path (Proofs.ArchiveOutCwd.probe_of ex isdir cwd raw)) root name raw /\
+  Model.ArchiveOut.decision_code (Model.ArchiveOut.handle_output_path (Proofs.ArchiveOutCwd.probe_of ex isdir cwd raw)) =
+  (let p := Proofs.ArchiveOutCwd.probe_of ex isdir cwd raw in
+   gen_archive_output_decision (Model.ArchiveOut.o_given p) (Model.ArchiveOut.o_exists p) (Model.ArchiveOut.o_is_dir p)
+                               (Model.ArchiveOut.o_parent_exists p) (Model.ArchiveOut.o_parent_is_dir p)).
+Proof.
+  intros. split; [apply Proofs.ArchiveOutCwd.cwd_model_takes_the_decision|apply Proofs.ArchiveOutCwd.cwd_model_decision_is_the_sources].
+Qed.
+Print Assumptions C17_archive_output_location_is_the_sources.
 
 (* non-vacuity: /r has the config file, /r/a also has a directory of that name (has_cfg answers
    is_file, so false), cwd = /r/a/b: the root found is /r; `cond gc -n` from there prints
